@@ -168,6 +168,16 @@ def compare(got, exp, F, name, out, hyps=()):
             if k.startswith("__ghost"):
                 continue
             if k not in got.fields or k not in exp.fields:
+                if k in got.fields and k.startswith("_"):
+                    # a private field the contract does not know (a cache added by the code): an empty one carries no
+                    # information; one that holds a value is neither right nor wrong by this contract -- undecided, and the
+                    # native replay of the property (behaviour after histories of operations) decides
+                    v = got.fields[k]
+                    if v is None or (isinstance(v, (dict, list, tuple, set)) and not v):
+                        continue
+                    out.append(Clause("%s.%s" % (name, k), "undecided", "normaliser",
+                                      "private field %s exists only on the code side and holds a value: not covered by the contract" % k))
+                    continue
                 out.append(Clause("%s.%s" % (name, k), "refuted", "normaliser",
                                   "field %s only on the %s side" % (k, "spec" if k in exp.fields else "code")))
                 continue
